@@ -366,6 +366,10 @@ def r6_cdn_download(ctx):
 
 
 def run(ctx):
+    # "only good answers are cached": the Ribbit answer that reaches the cache is the one the V1-MIME parser accepted; its epilogue
+    # checksum is the only integrity gate on that path (the signature is parsed, not verified)
+    from . import c07
+    c07.r10_skipped_only_when_absent(ctx, rule="C13.R7")
     r6_cdn_download(ctx)
     r1_failover(ctx)
     r2_r3_cache(ctx)
